@@ -14,7 +14,7 @@ PARTIAL = ["d2s_spec (binary32 rounding = round-to-nearest-even in the sense of 
 
 
 def run(ctx):
-    n = 1200 if ctx.quick() else 30000
+    n = 1200 if ctx.quick() else 10000
     cases = CC.gen_cases(ctx, n, hints=True, big=not ctx.quick())
     model = CC.run_model(ctx, [CC.expr_wr(c) for c in cases], "c02")
     redo = []
